@@ -1,5 +1,5 @@
 \* Reference configuration of the replay generator (one family; checks/c11.py writes one configuration per family).
-\* Family \in {"bind","adj","rec","shift","shifthole","shiftloop","exit","label","scope","incl","bin","binctx","count","special","attr","nest2q","nest2","nest3"}
+\* Family \in {"bind","adj","rec","shift","shifthole","shiftloop","exit","label","scope","incl","bin","binctx","count","special","attr","nest2q","nest2","nest3","refdepth"}
 \* Tier = "quick" thins the parameter ranges (see ParamNs, Counts, Ks in MacroProc_Gen.tla); MaxNum = 700 for "bin" and "binctx".
 \* Fixed = {}: the machine side is the code as it is, `devs` names the deviations that fired.
 CONSTANTS Fixed = {} HasAttrs = FALSE MaxNum = 99 Family = "exit" Tier = "quick"
